@@ -355,6 +355,7 @@ def run(tier):
                         'bound': 'array shapes 1x1..3x3, 3 random fillings each, flip 0..3, rotate 0..4', 'evaluations': na})
     for b in bada[:3]:
         rep.violation('C15/arrays/%s=%s/%s' % (b[0], b[1], b[3]), '%s_udgs(udgs, %d) on a %dx%d array: %s grid differs from the reference transformation' % (b[0], b[1], b[2][0], b[2][1], b[3]), {'case': {'array_op': b[0], 'arg': b[1], 'shape': list(b[2])}})
+    check_encoders(rep, tier)       # the clause "every specialised encoder agrees with the generic one", exhaustively on 1-2 tile frames
     nm, badm = macro_layer(common.seed(), 600 if tier == 'quick' else 6000)
     rep.bounded.append({'function': 'skoolkit.sna2img MACROS (skoolmacro.parse_udg / parse_udgarray / parse_font / parse_scr, graphics.build_udg / adjust_udgs / font_udgs / scr_udgs)',
                         'contract': 'the frame holds exactly the tiles, mask bytes, attributes, flip/rotation, scale, mask type, crop, tindex and alpha that the macro parameters name (parameter defaults as documented)',
@@ -378,7 +379,7 @@ def run(tier):
     seen = set()
     for b in bad:
         key = 'C15/image/%s' % b[0][:40]
-        if key in seen:
+        if key in seen or len(seen) >= 5:
             continue
         seen.add(key)
         rep.violation(key, 'rendered image: %s for %s' % b, {'case': b[1], 'observed': b[0]})
@@ -401,6 +402,14 @@ def replay(path):
         if doc.get('no_failing_input_found'):
             print(doc.get('what'))
             print('VIOLATION property=C15 replay=%s no-failing-input-found' % path)
+            return 1
+        return 0
+    if isinstance(case, dict) and 'encoder' in case:
+        enc = [e for e in ENCODERS if e[0] == case['encoder'] and bool(e[3]) == bool(case.get('mask_type'))][0]
+        n, bad = encoders_chunk((enc[0], enc[1], enc[2], enc[3], case['graphic'], case['graphic'] + 1, (case['mask'],) if case.get('mask') is not None else (0,), (case['scale'],)))
+        print(bad[:2])
+        if bad:
+            print('VIOLATION property=C15 replay=%s' % path)
             return 1
         return 0
     if isinstance(case, dict) and 'macro' in case:
@@ -781,6 +790,93 @@ def macro_layer(seed, n):
         except Exception as ex:      # noqa: a macro built from the documented forms must parse
             bad.append((kind, locals().get('text', ''), 'exception', repr(ex)[:160]))
     return ev, bad
+
+
+# ------------------------------------------------------------------ E (small scope): every specialised encoder against the generic one
+ENCODERS = (
+    # name, bit depth passed, palette indexes available, masked?
+    ('_build_image_data_bd0', 1, 1, 0), ('_build_image_data_bd1_nt', 1, 2, 0), ('_build_image_data_bd2_nt', 2, 4, 0), ('_build_image_data_bd4_nt', 4, 16, 0),
+    ('_build_image_data_bd1_at', 1, 2, 1), ('_build_image_data_bd2_at', 2, 4, 1), ('_build_image_data_bd0', 1, 1, 1),
+)
+
+
+def encoders_chunk(args):
+    """One encoder, one slice of the graphic-byte range: frames of one and of two tiles (different attributes), every
+    graphic byte in every pixel row, the given mask bytes, mask types, scales; the image data of the specialised
+    encoder must inflate to the bytes the generic encoder's image data inflates to."""
+    enc, bd, ncol, masked, b_lo, b_hi, mask_bytes, scales = args
+    import zlib as _z
+    from skoolkit.graphics import Udg, Frame
+    from skoolkit.image import ImageWriter
+    iw = ImageWriter()
+    w = iw.writer
+    special = getattr(w, enc)
+    generic = w._build_image_data_bd_any
+    n = 0
+    bad = []
+    # palette index pairs (paper, ink) for two attributes; with a mask, index 0 is the transparent colour
+    if ncol == 1:
+        maps = [{56: (0, 0), 7: (0, 0)}]
+    elif ncol == 2:
+        maps = [{56: (0, 1), 7: (1, 0)}, {56: (1, 1), 7: (0, 1)}]
+    elif ncol == 4:
+        maps = [{56: (1, 2), 7: (3, 0)}, {56: (2, 2), 7: (0, 3)}]
+    else:
+        maps = [{56: (1, 14), 7: (15, 0)}, {56: (9, 6), 7: (3, 12)}]
+    for b in range(b_lo, b_hi):
+        data = [(b + 37 * k) & 255 for k in range(8)]
+        data2 = [(255 - b + 11 * k) & 255 for k in range(8)]
+        for m in (mask_bytes if masked else (None,)):
+            mk = None if m is None else [(m + 101 * k) & 255 for k in range(8)]
+            for mtype in ((1, 2) if masked else (0,)):
+                for amap in maps:
+                    for shape in (1, 2):
+                        for scale in scales:
+                            udgs = [[Udg(56, list(data), None if mk is None else list(mk))] + ([Udg(7, list(data2), None)] if shape == 2 else [])]
+                            frame = Frame(udgs, scale, mtype)
+                            frame.attr_map = amap
+                            frame.has_masks = 1 if masked else 0
+                            mask = iw.masks[mtype]
+                            n += 1
+                            try:
+                                got = _z.decompress(bytes(special(frame, mask, bd)))
+                                exp = _z.decompress(bytes(generic(frame, mask, bd)))
+                            except Exception as ex:
+                                bad.append((enc, b, m, mtype, scale, shape, 'exception %r' % (ex,)))
+                                continue
+                            if got != exp:
+                                k = next(i for i in range(min(len(got), len(exp))) if got[i] != exp[i]) if len(got) == len(exp) else -1
+                                bad.append((enc, b, m, mtype, scale, shape, 'image data differs at byte %d (%d vs %d bytes)' % (k, len(got), len(exp))))
+                            if len(bad) > 3:
+                                return n, bad
+    return n, bad
+
+
+def check_encoders(rep, tier):
+    quick = tier == 'quick'
+    mask_bytes = tuple(range(0, 256, 17)) + (1, 2, 254, 127) if quick else tuple(range(256))
+    scales = (1, 2, 3, 8) if quick else tuple(range(1, 9))
+    tasks = []
+    for enc, bd, ncol, masked in ENCODERS:
+        step = 16 if masked else 64
+        for lo in range(0, 256, step):
+            tasks.append((enc, bd, ncol, masked, lo, lo + step, mask_bytes, scales))
+    with Pool(common.NCPU) as p:
+        res = p.map(encoders_chunk, tasks, chunksize=1)
+    n = sum(r[0] for r in res)
+    bad = [b for r in res for b in r[1]]
+    rep.bounded.append({'function': 'skoolkit.pngwriter.PngWriter._build_image_data_bd0 / bd1_nt / bd1_at / bd2_nt / bd2_at / bd4_nt against _build_image_data_bd_any',
+                        'contract': 'the specialised encoder the dispatch table selects produces image data that inflates to the same bytes as the generic encoder',
+                        'bound': 'small scope, exhaustive inside it: frames of 1 and 2 tiles, all 256 graphic bytes (every pixel row sees every value), %d mask bytes, mask types 1-2, scales %s, 2 palette-index maps per depth' % (len(mask_bytes), list(scales)),
+                        'evaluations': n})
+    seen = set()
+    for b in bad:
+        key = 'C15/encoder/%s%s' % (b[0].replace('_build_image_data_', ''), '/masked' if b[3] else '')
+        if key in seen:
+            continue
+        seen.add(key)
+        rep.violation(key, '%s on a %d-tile frame (graphic byte %d, mask byte %s, mask type %d, scale %d): %s' % (b[0], b[5], b[1], b[2], b[3], b[4], b[6]),
+                      {'case': {'encoder': b[0], 'graphic': b[1], 'mask': b[2], 'mask_type': b[3], 'scale': b[4], 'tiles': b[5]}, 'observed': b[6]})
 
 
 # ------------------------------------------------------------------ frame condition: the writers are configuration, not state
